@@ -6,5 +6,6 @@ func genExtra(repo string) map[string]string {
 		"Gen_consts.v":     genConsts(),
 		"Gen_des_tables.v": genDesTables(),
 		"Gen_layouts.v":    genLayouts(),
+		"Gen_randsites.v":  genRandSites(repo),
 	}
 }
